@@ -104,6 +104,7 @@ def cases(tier):
     yield ('hier_ops', 0, 0)
     yield ('date_units', 0, 0)
     yield ('matmul', 0, 0)
+    yield ('bool_labels', 0, 0)
 
 
 def universe(tier):
@@ -570,6 +571,32 @@ def run_hier_ops(case, ctx):
     ctx.sample({'family': 'hier_ops', 'trees': len(HTREES)}, limit=1)
 
 
+def run_bool_labels(case, ctx):
+    '''Series labelled by Booleans (every ordered non-empty subset of {True, False} on both sides): operators and reindex pair by label, a Boolean label is never read as a mask'''
+    subsets = [(True,), (False,), (True, False), (False, True)]
+    for la, lb in itertools.product(subsets, repeat=2):
+        a = sf.Series([1 if l else 2 for l in la], index=list(la))
+        b = sf.Series([10 if l else 20 for l in lb], index=list(lb))
+        ctx.state(('bool-labels', la, lb))
+        ctx.transition(2)
+        if la != lb:
+            ctx.nontriv(('bool-labels', la, lb))
+        info = dict(a=la, b=lb)
+        try:
+            r = a + b
+            got = {bool(k): v for k, v in zip(r.index.values.tolist(), r.values.tolist())}
+            exp = {l: ((1 if l else 2) + (10 if l else 20)) if l in la and l in lb else float('nan') for l in set(la) | set(lb)}
+            if set(got) != set(exp) or any(not (got[k] == exp[k] or (got[k] != got[k] and exp[k] != exp[k])) for k in exp):
+                ctx.violation('bool-labels|series.add|values-not-paired-by-label', **info, got=got, expected=exp)
+            r2 = a.reindex(list(lb), fill_value=-1)
+            if r2.values.tolist() != [(1 if l else 2) if l in la else -1 for l in lb]:
+                ctx.violation('bool-labels|series.reindex|values-not-paired-by-label', **info, got=r2.values.tolist())
+        except Exception as e:
+            ctx.violation(f'bool-labels|raises|{type(e).__name__}', **info, error=repr(e))
+    ctx.outcome('bool_labels')
+    ctx.sample({'family': 'bool_labels'}, limit=1)
+
+
 def run_matmul(case, ctx):
     '''the @ operator pairs the inner axis by label: every permutation of the inner labels on both operands, Series and Frame on either side'''
     inner = ('a', 'b', 'c')
@@ -652,5 +679,7 @@ def run_case(case, ctx):
         return run_date_units(case, ctx)
     if case[0] == 'matmul':
         return run_matmul(case, ctx)
+    if case[0] == 'bool_labels':
+        return run_bool_labels(case, ctx)
     {'hier_ops': run_hier_ops, 'setops': run_setops, 'setops_ih': run_setops_ih, 'series': run_series, 'frames': run_frames,
      'frame_series': run_frame_series, 'unlabelled': run_unlabelled}[case[0]](case, ctx)
